@@ -28,6 +28,46 @@ def pin_process():
         raise RuntimeError(f"spatialpandas is imported from {p}, not from {REPO_ROOT}")
     from .simfs import register
     register()
+    _init_numba_threads()
+
+
+_PSUM = []
+
+
+def _init_numba_threads():
+    """Start numba's threading layer from the MAIN thread.  If the first parallel kernel of
+    the process runs in another thread (a logical task of the simulator), every later
+    parallel kernel called from the main thread runs single-threaded whatever
+    numba.set_num_threads says (observed with the omp layer) - the thread-count sweep of C18
+    would then compare one configuration with itself."""
+    import numba
+    import numpy as np
+
+    @numba.njit(parallel=True)
+    def psum(a):
+        s = 0.0
+        for i in numba.prange(a.shape[0]):
+            s += a[i]
+        return s
+    psum(np.arange(1000.0))
+    _PSUM.append(psum)
+
+
+def numba_sweep_effective():
+    """True if numba.set_num_threads changes how a parallel reduction is split in this
+    process (a float sum over non-representable terms differs between 1 and all threads)."""
+    import numba
+    import numpy as np
+    a = np.sin(np.arange(200000.0)) * 0.1
+    prev = numba.get_num_threads()
+    try:
+        numba.set_num_threads(1)
+        r1 = _PSUM[0](a)
+        numba.set_num_threads(numba.config.NUMBA_NUM_THREADS)
+        rn = _PSUM[0](a)
+    finally:
+        numba.set_num_threads(prev)
+    return numba.config.NUMBA_NUM_THREADS > 1 and r1 != rn
 
 
 class _SimTime(types.SimpleNamespace):
